@@ -576,6 +576,10 @@ const maxCharPadding = 10000
 func filterCenter(in *Value, param *Value) (*Value, *Error) {
 	width := param.Integer()
 	slen := in.Len()
+	if !in.IsString() {
+		// a number is padded as the text it is printed as
+		slen = utf8.RuneCountInString(in.String())
+	}
 	if width <= slen {
 		return in, nil
 	}
@@ -680,6 +684,10 @@ func filterLinenumbers(in *Value, param *Value) (*Value, *Error) {
 
 func filterLjust(in *Value, param *Value) (*Value, *Error) {
 	times := param.Integer() - in.Len()
+	if !in.IsString() {
+		// a number is padded as the text it is printed as
+		times = param.Integer() - utf8.RuneCountInString(in.String())
+	}
 	if times < 0 {
 		times = 0
 	}
